@@ -7,7 +7,8 @@
 //                               (defect, veq only when decomposed: `defect` is uninitialised before;
 //                                veq: V_ equals minV bitwise)
 //           solver entry env :  as adj_harness (GamaVerifProbe::env_state)
-//           adj entry        :  adj <solved> <algorithm_> ls <null|env|gso|svd|chol> | <state of *least_squares>
+//           adj entry        :  adj <solved> <algorithm_> adot <rows> <cols> ls <null|env|gso|svd|chol> | <state of *least_squares>
+//                               (adot: shape of the dense work matrix A_dot, which outlives solver objects and data sets)
 //   info <alg>   facts for the Lean driver, computed on a separate fresh object: info <alg> <n> <nullity>
 //   rows    adj entry: rows <m> {<k> c1..ck}   (sparse rows of A: Adj::q_bb walks them)
 // Real code in-process, under ASan/UBSan.
@@ -113,7 +114,8 @@ struct GamaVerifProbe {
     return "other";
   }
   static void adj_state(const Adj& a, std::ostream& out) {
-    out << "adj " << (a.solved ? 1 : 0) << " " << alg_name(a.algorithm_) << " ls " << dyn_type(a.least_squares);
+    out << "adj " << (a.solved ? 1 : 0) << " " << alg_name(a.algorithm_)
+        << " adot " << a.A_dot.rows() << " " << a.A_dot.cols() << " ls " << dyn_type(a.least_squares);
     if (a.least_squares) { out << " | "; solver_state(a.least_squares, out); }
   }
   // "envinfo <n> <nullity> invp <n ints> width <n ints> rows <m> {<k> c1..ck}"  (after solve_x0)
